@@ -15,7 +15,10 @@ import (
 	"github.com/pion/rtp"
 )
 
-var errLeakyBucketPacerPoolCastFailed = errors.New("failed to access leaky bucket pacer pool, cast failed")
+var (
+	errLeakyBucketPacerPoolCastFailed = errors.New("failed to access leaky bucket pacer pool, cast failed")
+	errLeakyBucketPacerClosed         = errors.New("leaky bucket pacer closed")
+)
 
 type item struct {
 	header     *rtp.Header
@@ -34,9 +37,10 @@ type LeakyBucketPacer struct {
 
 	pacingInterval time.Duration
 
-	qLock sync.RWMutex
-	queue *list.List
-	done  chan struct{}
+	qLock  sync.RWMutex
+	queue  *list.List
+	closed bool // guarded by qLock
+	done   chan struct{}
 
 	closeOnce sync.Once
 	wg        sync.WaitGroup
@@ -128,6 +132,13 @@ func (p *LeakyBucketPacer) Write(header *rtp.Header, payload []byte, attributes 
 	hdr := header.Clone()
 
 	p.qLock.Lock()
+	if p.closed {
+		// nothing drains the queue any more: a packet accepted now would never be sent
+		p.qLock.Unlock()
+		p.pool.Put(buf)
+
+		return 0, errLeakyBucketPacerClosed
+	}
 	p.queue.PushBack(&item{
 		header:     &hdr,
 		payload:    buf,
@@ -190,7 +201,12 @@ func (p *LeakyBucketPacer) Run() {
 
 // Close closes the LeakyBucketPacer.
 func (p *LeakyBucketPacer) Close() error {
-	p.closeOnce.Do(func() { close(p.done) })
+	p.closeOnce.Do(func() {
+		p.qLock.Lock()
+		p.closed = true
+		p.qLock.Unlock()
+		close(p.done)
+	})
 	// wait for the pacer goroutine: nothing may be written to a stream's writer once Close has returned
 	p.wg.Wait()
 
